@@ -4,6 +4,8 @@ from collections import OrderedDict
 
 from t4_geom_convert.Kernel.FileHandlers.Parser.ParseMCNPCell import ParseMCNPCell
 
+from MIP.mip import cellcard
+
 from pyvc.contract import contract
 from contracts.c12 import _bare_parser
 
@@ -97,6 +99,42 @@ class _LikeBut:
             yield f'same-{n}', a == b
 
 
+_SPLIT_OPTS = ['', 'IMP:N=1', '*TRCL=(0 0 0 30 60 90 120 30 90 90 90 0)', 'U=2 *FILL=3 (1 0 0)', '*FILL=3 (1 0 0 0 90 90 90 0 90 90 90 0) U=2',
+               'trcl=4', 'MAT=7 RHO=-2.5', 'imp:n=0 u=3', 'FILL=6 (2 0 0) *TRCL=(1 1 1)', 'RHO=2.0-2', 'VOL=1.5 TMP=2.53e-8']
+_SPLIT_GEOMS = ['-1 2', '(1:2) -3', '#(1 2)', '-1.1 2', '#5 (3:-4)', '(1:2)']
+
+
+@contract(cellcard.split, props=['C15'], name='cellcard.split', status='B')
+class _Split:
+    """The MIP card splitter hands over name, material, geometry and the option text unchanged: nothing is dropped or
+    added, in particular not the star of a starred keyword that comes first (LIKE n BUT *TRCL=..) and not a keyword."""
+    scope = ('LIKE cards (3 spellings of LIKE n BUT) and explicit cards (void / non-void, 6 geometries) x 11 option '
+             'texts incl. starred keywords first, lower case, Fortran exponents')
+
+    def bounded(tier):
+        for opts in _SPLIT_OPTS:
+            for like in ('like 3 but', 'LIKE 12 BUT', 'Like  3   But'):
+                yield {'kind': 'like', 'head': like, 'geom': '', 'opts': opts}
+            for geom in _SPLIT_GEOMS:
+                yield {'kind': 'void', 'head': '0', 'geom': geom, 'opts': opts}
+                yield {'kind': 'mat', 'head': '2 -1.5', 'geom': geom, 'opts': opts}
+                yield {'kind': 'mat', 'head': '11 6.0-2', 'geom': geom, 'opts': opts}
+
+    def call(kind, head, geom, opts):
+        txt = ' '.join(x for x in ('20', head, geom, opts) if x)
+        return cellcard.split(txt)
+
+    def ensures(result, kind, head, geom, opts):
+        name, mat, g, o = result
+        yield 'name', name.strip() == '20'
+        yield 'options-verbatim', o.strip() == opts
+        if kind == 'like':
+            yield 'like-part', g.split() == head.split() and mat == ''
+        else:
+            yield 'material', mat.split() == head.split()
+            yield 'geometry', g.strip() == geom
+
+
 def _sweep_c15(tier, seed):
     from harness.sweeps import deck_sweep
     return deck_sweep('C15', tier, seed, families=('fill',), n_quick=64, n_thorough=600,
@@ -108,8 +146,8 @@ LEVEL = {'C15': 'other'}
 EXPLANATION = {'C15': (
     'Bounded, exhaustive within the stated scope, on the real parse_one_cell / apply_but / parse_keywords: the cell '
     'object parsed from a LIKE n BUT card (direct and chained) equals, field by field, the cell object parsed from the '
-    'explicit card with the listed parameters overridden. The regular expression that splits LIKE cards '
-    '(cellcard.re_likebut) is trusted; it is exercised by the deck sweep of this property (family fill: universes '
+    'explicit card with the listed parameters overridden. The card splitter (cellcard.split, regular expressions) is '
+    'under a bounded contract of its own (option text handed over verbatim); it is also exercised by the deck sweep of this property (family fill: universes '
     're-used through LIKE copies of all their cells with U=, FILL=, MAT=, RHO= overridden; owner, provenance and '
     'composition of every probe point against the deck oracle).')}
-ASSUMPTIONS = {'C15': ['cellcard.re_likebut / LIKE_RE (regular expressions) trusted']}
+ASSUMPTIONS = {'C15': ['cellcard.split: bounded contract only (regular expressions are outside the proved subset)']}
